@@ -988,3 +988,44 @@ V("C08", "syncing_scope_no_finally", "fire", "R08.c", (Z, """    parameterized._
 
 V("C18", "extend_iterable_consumed_twice", "fire", "R18.g", (P, "        # The iterable is consumed twice below\n        objects = list(objects)\n        with self._trigger():", "        with self._trigger():"))
 V("C18", "remove_prunes_by_argument_identity", "fire", "R18.c", (P, "            object = super().__getitem__(super().index(object))\n", ""))
+
+# name-independence twins
+V("C03", "benign_register_watcher_locals_renamed", "benign", None, (Z, """        for parameter_name in parameter_names:
+            if parameter_name not in self_.cls.param:
+                raise ValueError("{} parameter was not found in list of "
+                                 "parameters of class {}".format(parameter_name, self_.cls.__name__))
+
+            if self_.self is not None and what == "value":
+                watchers = self_.self._param__private.watchers
+                if parameter_name not in watchers:
+                    watchers[parameter_name] = {}
+                if what not in watchers[parameter_name]:
+                    watchers[parameter_name][what] = []
+                getattr(watchers[parameter_name][what], action)(watcher)
+            else:
+                watchers = self_[parameter_name].watchers
+""", """        for pname in parameter_names:
+            if pname not in self_.cls.param:
+                raise ValueError("{} parameter was not found in list of "
+                                 "parameters of class {}".format(pname, self_.cls.__name__))
+
+            if self_.self is not None and what == "value":
+                table = self_.self._param__private.watchers
+                if pname not in table:
+                    table[pname] = {}
+                if what not in table[pname]:
+                    table[pname][what] = []
+                getattr(table[pname][what], action)(watcher)
+            else:
+                watchers = self_[pname].watchers
+"""))
+V("C10", "benign_running_task_renamed", "benign", None, (Z, """        running_task = self_.self._param__private.async_refs.get(pname)
+        if running_task is None:
+            self_.self._param__private.async_refs[pname] = current_task
+        elif current_task is not running_task:""", """        owner = self_.self._param__private.async_refs.get(pname)
+        if owner is None:
+            self_.self._param__private.async_refs[pname] = current_task
+        elif current_task is not owner:"""))
+V("C12", "benign_instantiator_renamed", "benign", None, (Z, "        instantiator = copy.deepcopy if deepcopy else lambda o: o", "        make = copy.deepcopy if deepcopy else lambda o: o"),
+  (Z, "                new_object = instantiator(param_obj.default)\n                shared_parameters._shared_cache[param_key] = new_object", "                new_object = make(param_obj.default)\n                shared_parameters._shared_cache[param_key] = new_object"),
+  (Z, "        else:\n            new_object = instantiator(param_obj.default)\n\n        dict_[key] = new_object", "        else:\n            new_object = make(param_obj.default)\n\n        dict_[key] = new_object"))
